@@ -394,6 +394,8 @@ def core_specs(P: str = "U", variant: int = 0) -> list[CS]:
             body="    def __len__(self):\n        return len(self.elems)\n\n    def __iter__(self):\n        return iter(self.elems)\n\n    def __contains__(self, x):\n        return any(x is e for e in self.elems)\n",
         ),
         CS(f"{P}Hold", (E,), F(FS("blk", "child", f"{P}Coll", "one", (f"{P}Coll",)), FS("alt", "child", f"{P}Coll | None", "opt", (f"{P}Coll",), default="None"))),
+        # a model with a child field that is itself called 'children' (it shadows the library's convenience property)
+        CS(f"{P}Elem", (E,), F(FS("tag", "prop", "str", "str", default='""'), FS("attrs", "child", f"tuple[{E}, ...]", "tuple", (E,), default="()"), FS("children", "child", f"tuple[{E}, ...]", "tuple", (E,), default="()"), FS("tail", "child", f"{E} | None", "opt", (E,), default="None"))),
         # an abstract base node class (abc.ABC: another metaclass) and a concrete subclass
         CS(f"{P}Abstract", (E, "ABC"), F(FS("label", "prop", "str", "str", default='""')), abstract=True),
         CS(f"{P}Concrete", (f"{P}Abstract",), F(FS("kid", "child", f"{P}Abstract | {E} | None", "opt", (E,), default="None"))),
